@@ -85,7 +85,7 @@ fn base_history(ps: u64, num_pages: usize, rich: bool) -> History {
         }
         txs.push(TxScript { ops, end: End::Commit, reopen: true });
     }
-    History { pagesize: ps, num_pages, strict: false, populate: false, txs, origin: "c11 base".into() }
+    History { pagesize: ps, num_pages, strict: false, populate: false, txs, origin: "c11 base".into(), pins: vec![] }
 }
 
 pub fn targets(ps: u64, thorough: bool) -> Vec<Target> {
